@@ -30,7 +30,7 @@ META = dict(
     level_text="For every listed 2-process configuration (program pair x initial state x optional crash point x handle provenance) ALL interleavings of the first D primitive calls are enumerated (D=14 quick / 20 thorough; beyond D the lowest live pid runs on), which is the complete schedule space for most configurations (reported per run as complete_configs of configs); 3 and 4 processes with random programs, crash points and schedules are sampled with Hypothesis. After every schedule the surviving holder (if any) must be able to unlock and a fresh process must then acquire. Not the TLA+ proof the quantifier mentions: exhaustive only within the stated scopes.",
     level_note="Trusted: the in-memory model of the four primitives (symlink is atomic and fails with EEXIST, remove is atomic, readlink/kill as POSIX; pids are never reused; only the UNIX code path; no EPERM/EACCES). Liveness is checked as quiescence: at the end of every schedule a solo newcomer acquires within 3 calls.",
     design_ref="§5 C50",
-    rule="case = (programs per process over L/U/D plus l/u = lock/unlock through the process's second handle and X/x = unlock() called whether or not the process holds; initial state free/stale/held by a live outsider; per process: handles constructed by a dead or live parent before fork, handle inherited with locked=True; optional crash point per process, schedule = choice among runnable processes at each primitive call). non-trivial = some lock() met an existing link (EEXIST) while another process was live or a stale link existed, or a stale lock was broken; distinct by (configuration, executed process order).",
+    rule="case = (programs per process over L/U/D plus l/u = lock/unlock through the process's second handle and X/x = unlock() called whether or not the process holds, W/T/V = deferUntilLocked() on the process's (reused) DeferredFilesystemLock with timeout 2/1/none pumped on its own clock, R = unlock through it; initial state free/stale/held by a live outsider; per process: handles constructed by a dead or live parent before fork, handle inherited with locked=True; optional crash point per process, schedule = choice among runnable processes at each primitive call). non-trivial = some lock() met an existing link (EEXIST) while another process was live or a stale link existed, or a stale lock was broken; distinct by (configuration, executed process order).",
 )
 
 NAME = "/lock/the.lock"
@@ -65,6 +65,27 @@ class _OsShim:
 
     def __getattr__(self, name):
         return getattr(_real_os, name)
+
+
+_CACHE = {}
+
+
+def _task():
+    from twisted.internet import task
+    return task
+
+
+def _dlock_class():
+    """DeferredFilesystemLock whose lock() goes through the oracle's bookkeeping."""
+    if "cls" not in _CACHE:
+        from twisted.internet.defer import DeferredFilesystemLock
+
+        class _DLock(DeferredFilesystemLock):
+            def lock(self):
+                world, proc = self._c50
+                return world.api_lock(proc, 2, call=lambda: DeferredFilesystemLock.lock(self))
+        _CACHE["cls"] = _DLock
+    return _CACHE["cls"]
 
 
 class _Pid:
@@ -126,6 +147,12 @@ class _World:
         # constructed by a parent (another pid) before this process existed
         self.current = _Pid({None: p.pid, "dead": PARENT_DEAD, "live": OUTSIDER}[p.creator])
         p.locks = [self.lockfile.FilesystemLock(NAME), self.lockfile.FilesystemLock(NAME)]
+        # ... and a DeferredFilesystemLock (the in-tree asynchronous driver of
+        # lock(): retries on a scheduler, optional timeout), reused across cycles
+        p.clock = _task().Clock()
+        dl = _dlock_class()(NAME, scheduler=p.clock)
+        dl._c50 = (self, p)
+        p.locks.append(dl)
         if p.flag:
             p.locks[0].locked = True
         self.current = p
@@ -140,6 +167,13 @@ class _World:
                 elif op in "Xx":
                     # late / duplicate / mistaken unlock(): called whether or not the process holds
                     self.api_unlock(p, "Xx".index(op))
+                elif op in "WTV":
+                    # deferUntilLocked(): W timeout 2 retry intervals, T timeout 1, V none (cancelled after 2 retries)
+                    if not p.holding:
+                        self.api_defer(p, {"W": 2, "T": 1, "V": None}[op], 2 if op == "V" else None)
+                elif op == "R":
+                    if p.holding:
+                        self.api_unlock(p, 2)
                 elif op == "D":
                     self.prim(p, "die")
                 else:
@@ -261,10 +295,49 @@ class _World:
             self.fail = (sig, detail)
         raise _Stop()
 
-    def api_lock(self, p, h=0):
+    def api_defer(self, p, timeout, cancel_after):
+        """One deferUntilLocked() cycle on the process's DeferredFilesystemLock,
+        pumped on the process's own clock until its Deferred has a result."""
+        from twisted.internet.error import AlreadyCalled, AlreadyCancelled
+        from twisted.internet.defer import TimeoutError, CancelledError
+        from twisted.python.failure import Failure
+        dl, clock, box = p.locks[2], p.clock, []
+        n = 0
+        try:
+            d = dl.deferUntilLocked(timeout=timeout)
+            d.addBoth(box.append)
+            while not box and clock.getDelayedCalls() and n < 8:
+                if cancel_after is not None and n >= cancel_after:
+                    break
+                clock.advance(1)
+                n += 1
+            if not box:
+                # still waiting after 8 retry intervals (whether a timeout should
+                # have ended the wait earlier is DeferredFilesystemLock's own
+                # contract, not this property's): give up like a caller would
+                d.cancel()
+                if p.live():
+                    self.flags.add("deferred-wait-abandoned")
+        except (AlreadyCalled, AlreadyCancelled) as e:
+            self._failed("deferUntilLocked-raised-" + type(e).__name__,
+                         f"pid {p.pid}: deferUntilLocked(timeout={timeout}) on a reused DeferredFilesystemLock raised "
+                         f"{e!r} (process {'HOLDS the lock, its Deferred never fired' if p.holding else 'does not hold'})")
+        if box and isinstance(box[0], Failure) and not box[0].check(TimeoutError, CancelledError):
+            box[0].raiseException()
+        if p.live():
+            if box == [None]:
+                self.flags.add("deferred-acquired-after-waiting" if n else "deferred-acquired-at-once")
+            elif box and box[0].check(TimeoutError):
+                self.flags.add("deferred-timed-out")
+            elif box:
+                self.flags.add("deferred-cancelled")
+            if timeout is not None and n:
+                self.flags.add("deferred-waited-with-timeout-armed")
+
+    def api_lock(self, p, h=0, call=None):
         lock = p.locks[h]
         try:
-            r = lock.lock()
+            r = (call or lock.lock)()
         except OSError as e:
             # the doubles raise only EEXIST/ENOENT/ESRCH, all of which lock() must absorb
             self._failed("lock-raised-OSError-" + errno.errorcode.get(e.errno, str(e.errno)),
@@ -438,6 +511,8 @@ def run_case(ctx, case):
         ctx.count("handle-created-by-parent-before-fork")
     if any(case.get("flags") or []):
         ctx.count("handle-inherited-with-locked-flag")
+    if any(c in prog for prog in case["programs"] for c in "WTV"):
+        ctx.count("deferUntilLocked-in-program")
     if any(c in prog for prog in case["programs"] for c in "luXx"):
         ctx.count("second-handle-or-late-unlock-in-program")
     if w.fail is not None:
@@ -509,6 +584,11 @@ def _configs(ctx):
         add(["X", other], "held", flags=(True, False))
         add(["LU", other], "held")
         add(["xLU", other], "held", ("live", None), (True, False))
+    # one DeferredFilesystemLock object reused over several acquire/release cycles
+    for prog in ("WRW", "TRW", "WW", "TW", "VRW", "WRV", "WRT"):
+        add([prog, "LU"])
+    add(["WRW", "LU"], "stale")
+    add(["WW", "L"], "held")
     return out
 
 
@@ -524,7 +604,8 @@ def _enum_config(ctx, config):
 
 def _case_strategy(nprocs):
     prog = st.one_of(st.text(alphabet="LLLUUD", min_size=1, max_size=5),
-                     st.text(alphabet="LLLUUDluXx", min_size=1, max_size=5))
+                     st.text(alphabet="LLLUUDluXx", min_size=1, max_size=5),
+                     st.text(alphabet="LUWWTVRRD", min_size=1, max_size=5))
     return st.builds(
         dict,
         programs=st.lists(prog, min_size=nprocs, max_size=nprocs),
